@@ -719,7 +719,7 @@ def run(ctx):
     run_plot(ctx, rd, mg)
 
     # 2. data sets and implementation runs
-    reps = 2 if quick else 16
+    reps = 2 if quick else 60
     datasets = []
     for rep in range(reps):
         for kind in ("powerlaw", "poly", "generic"):
